@@ -47,6 +47,7 @@ Section ValueInd.
   Hypothesis Hint : forall z, P (VInt z).
   Hypothesis Hbool : forall b, P (VBool b).
   Hypothesis Hstr : forall s, P (VStr s).
+  Hypothesis Hemp : P VEmptyBytes.
   Hypothesis Hnil : P VNil.
   Hypothesis Hptr : forall v, P v -> P (VPtr v).
   Hypothesis Hlist : forall l, Forall P l -> P (VList l).
@@ -57,7 +58,7 @@ Section ValueInd.
     let go := (fix go (l : list value) : Forall P l :=
                  match l with [] => Forall_nil P | x :: xs => Forall_cons x (value_ind' x) (go xs) end) in
     match v with
-    | VInt z => Hint z | VBool b => Hbool b | VStr s => Hstr s | VNil => Hnil
+    | VInt z => Hint z | VBool b => Hbool b | VStr s => Hstr s | VEmptyBytes => Hemp | VNil => Hnil
     | VPtr w => Hptr w (value_ind' w)
     | VList l => Hlist l (go l)
     | VStruct n fs => Hstruct n fs (go fs)
@@ -68,10 +69,11 @@ End ValueInd.
 
 Lemma value_eqb_eq a : forall b, value_eqb a b = true -> a = b.
 Proof.
-  induction a as [z|b0|s| |w IH|l IH|n fs IH|t w IH|i] using value_ind'; intros b H; destruct b; cbn [value_eqb] in H; try discriminate.
+  induction a as [z|b0|s| | |w IH|l IH|n fs IH|t w IH|i] using value_ind'; intros b H; destruct b; cbn [value_eqb] in H; try discriminate.
   - apply Z.eqb_eq in H. subst. reflexivity.
   - f_equal. apply Bool.eqb_prop, H.
   - f_equal. apply zlist_eqb_s_eq, H.
+  - reflexivity.
   - reflexivity.
   - f_equal. apply IH, H.
   - f_equal. revert l0 H. induction IH as [|k ks Hk _ IHks]; intros [|q qs] H; try discriminate; [reflexivity|].
@@ -112,7 +114,8 @@ Section RT.
       intros e rest Hf; inversion Hf; subst; cbn [dec_scalar];
       unfold c_integer, c_long, c_big, c_enum, c_bool, c_text, c_bytes, c_date, c_intv, c_mask;
       erewrite c_scalar_hit by eassumption; cbn [bind fst snd]; try reflexivity;
-      match goal with H : (0 <=? ?z) = true |- _ => apply Z.leb_le in H; destruct (Z.ltb_spec z 0); [lia | reflexivity] end.
+      first [ match goal with H : (0 <=? ?z) = true |- _ => apply Z.leb_le in H; destruct (Z.ltb_spec z 0); [lia | reflexivity] end
+            | match goal with |- Ok (vbytes ?s, _) = _ => destruct s; [discriminate Hk | reflexivity] end ].
   Qed.
 
   (** ** structures that do not look at the version *)
@@ -283,7 +286,7 @@ Section RT.
       intros es rest fd Hf _ Hfd. apply faithful_one_inv in Hf. destruct Hf as (e & -> & He1).
       destruct fd as [|fd]; [lia|]. rewrite dec_ty_eq. cbn [app]. rewrite (Hrd e rest He1). reflexivity.
     - (* pointer *)
-      destruct v as [| | | |w| | | |]; try discriminate.
+      destruct v as [| | | | |w| | | |]; try discriminate.
       + injection He as <- <-. injection Hc as <-.
         split; [reflexivity|]. split; [constructor|]. split; [discriminate|]. split; [intros _ H; discriminate H|].
         intros es rest fd Hf Hnext Hfd. apply faithful_nil_inv in Hf. subst es. cbn [app].
@@ -300,7 +303,7 @@ Section RT.
         { apply Hdec; [constructor; [assumption | constructor] | rewrite (one_item_no_lookahead _ Hone); discriminate | lia]. }
         cbn [app] in Hd. rewrite Hd. reflexivity.
     - (* slice *)
-      destruct v as [| | | | |l| | |]; try discriminate.
+      destruct v as [| | | | | |l| | |]; try discriminate.
       destruct (one_item t') eqn:Hone; [|discriminate].
       destruct (IHl _ _ _ _ _ _ _ He Hc Hone) as (-> & Hta & Hne & Hdec).
       split; [reflexivity|]. split; [exact Hta|]. split; [discriminate|].
@@ -309,7 +312,7 @@ Section RT.
       rewrite (Hdec es rest fd Hf (Hnext eq_refl)) by lia. reflexivity.
     - (* named *)
       destruct (String.eqb n "ttlv.Value") eqn:EV.
-      { destruct v as [| | | | | | | |i]; try discriminate. injection He as <- <-.
+      { destruct v as [| | | | | | | | |i]; try discriminate. injection He as <- <-.
         destruct (tree_shaped i && (itag i =? tag)) eqn:Hts; [|discriminate]. injection Hc as <-.
         apply andb_true_iff in Hts. destruct Hts as [Hsh Htag]. apply Z.eqb_eq in Htag.
         rewrite (retag_same i tag Htag).
@@ -320,7 +323,7 @@ Section RT.
         rewrite (Hv i e rest Hsh He1). { reflexivity. }
         unfold items_size in Hfd. cbn [fold_right] in Hfd. lia. }
       destruct (String.eqb n "ttlv.Struct") eqn:ES.
-      { destruct v as [| | | | |l| | |]; try discriminate.
+      { destruct v as [| | | | | |l| | |]; try discriminate.
         destruct (trees_of l) as [is|] eqn:Etr; [|discriminate]. injection He as <- <-.
         destruct (forallb tree_shaped is && forallb (fun k => negb (itag k =? 0)) is) eqn:Hts; [|discriminate]. injection Hc as <-.
         apply andb_true_iff in Hts. destruct Hts as [Hsh Htags].
@@ -335,7 +338,7 @@ Section RT.
         cbn [bind fst snd]. rewrite andb_false_r. rewrite c_next_cons. cbn [bind fst snd].
         rewrite (trees_of_some l is Etr). reflexivity. }
       destruct (find_tdef S n) as [d|] eqn:Ed; [|discriminate].
-      destruct v as [| | | | | |n' fs| |]; try discriminate.
+      destruct v as [| | | | | | |n' fs| |]; try discriminate.
       destruct (String.eqb n n' && negb (t_custom_enc d) && negb (t_custom_dec d) && wf_fields (t_fields d)) eqn:Hcond; [|discriminate].
       apply andb_true_iff in Hcond. destruct Hcond as [Hcond Hwf]. apply andb_true_iff in Hcond. destruct Hcond as [Hcond Hcd].
       apply andb_true_iff in Hcond. destruct Hcond as [Hn Hce]. apply String.eqb_eq in Hn. subst n'.
@@ -368,7 +371,7 @@ Section RT.
     rewrite !andb_true_iff in Hp. destruct Hp as ((((Hce & Hcd) & Hpl) & HV) & HS).
     apply negb_true_iff in Hce, Hcd, HV, HS.
     destruct f as [|f]; [discriminate|]. rewrite enc_ty_eq, HV, HS, Ed in He.
-    destruct x as [| | | | | |n' fs| |]; try discriminate. rewrite Hce in He.
+    destruct x as [| | | | | | |n' fs| |]; try discriminate. rewrite Hce in He.
     destruct (enc_fields f st (t_fields d) fs) as [[kids s2]| | |] eqn:Ef; cbn [bind fst snd] in He; try discriminate.
     injection He as <- <-. destruct (enc_plain_fields _ Hpl _ _ _ _ _ Ef) as [-> Hall].
     split; [reflexivity|]. intros st2. rewrite enc_ty_eq, HV, HS, Ed, Hce, Hall. reflexivity.
@@ -383,7 +386,7 @@ Section RT.
     rewrite !andb_true_iff in Hp. destruct Hp as ((((Hce & Hcd) & Hpl) & HV) & HS).
     apply negb_true_iff in HV, HS.
     destruct f as [|f]; [discriminate|]. rewrite conf_ty_eq, HV, HS, Ed in He.
-    destruct x as [| | | | | |n' fs| |]; try discriminate.
+    destruct x as [| | | | | | |n' fs| |]; try discriminate.
     destruct (String.eqb n n' && negb (t_custom_enc d) && negb (t_custom_dec d) && wf_fields (t_fields d)) eqn:Hcond; [|discriminate].
     destruct (conf_plain_fields _ Hpl _ _ _ _ He) as [-> Hall].
     split; [reflexivity|]. intros st2. rewrite conf_ty_eq, HV, HS, Ed, Hcond. apply Hall.
